@@ -18,3 +18,55 @@ package freelist
 //@   loop 0 invariant [init0] rangeindex == 0-1 ==> previd == 0 && initial == 0
 //@   loop 0 invariant [run] rangeindex >= 0 ==> previd == f.ids[rangeindex] && initial <= previd && 0 <= rangeindex - (previd - initial) && f.ids[rangeindex - (previd - initial)] == initial && previd - initial + 1 < n && initial >= 2 && (rangeindex - (previd - initial) == 0 || f.ids[rangeindex - (previd - initial)] - f.ids[rangeindex - (previd - initial) - 1] >= 2)
 //@   loop 0 invariant [norun] forall s int :: 0 <= s && s + n <= rangeindex + 1 ==> f.ids[s+n-1] - f.ids[s] != n - 1
+
+// ---------------------------------------------------------------- shared.go
+
+//@ pure func inids(s []common.Pgid, p common.Pgid) bool = exists wi int :: 0 <= wi && wi < len(s) && s[wi] == p
+//@ pure func inpend(t *shared, tid common.Txid, p common.Pgid) bool = has(t.pending, tid) && inids(t.pending[tid].ids, p)
+//@ pure func wfTxp(x *txPending) bool = x != nil && len(x.ids) == len(x.alloctx)
+//@ pure func isreader(t *shared, r common.Txid) bool = exists wr int :: 0 <= wr && wr < len(t.readonlyTXIDs) && t.readonlyTXIDs[wr] == r
+
+//@ func (*shared).Freed
+//@   props C09 C19
+//@   ensures result == has(t.cache, pgId)
+//@   modifies nothing
+
+//@ func (*shared).AddReadonlyTXID
+//@   props C09 C02 C10
+//@   ensures [added] isreader(t, tid)
+//@   ensures [kept] forall r common.Txid :: old(isreader(t, r)) ==> isreader(t, r)
+//@   ensures [len] len(t.readonlyTXIDs) == old(len(t.readonlyTXIDs)) + 1
+//@   witness [added] wr := old(len(t.readonlyTXIDs))
+//@   modifies t.readonlyTXIDs, allelems("common.Txid")
+
+//@ func (*shared).Free
+//@   props C09 C06 C07 C01
+//@   requires t.pending != nil && t.cache != nil && t.allocs != nil
+//@   requires has(t.pending, txid) ==> wfTxp(t.pending[txid])
+//@   requires p.id + p.overflow + 1 <= 18446744073709551615
+//@   panics when p.id <= 1 || (exists j common.Pgid :: p.id <= j && j <= p.id + p.overflow && has(t.cache, j))
+//@   ensures [cached] forall j common.Pgid :: p.id <= j && j <= p.id + p.overflow ==> has(t.cache, j)
+//@   ensures [cachekept] forall j common.Pgid :: old(has(t.cache, j)) ==> has(t.cache, j)
+//@   ensures [cacheonly] forall j common.Pgid :: has(t.cache, j) ==> old(has(t.cache, j)) || (p.id <= j && j <= p.id + p.overflow)
+//@   ensures [pend] has(t.pending, txid) && wfTxp(t.pending[txid])
+//@   ensures [count] len(t.pending[txid].ids) == (old(has(t.pending, txid)) ? old(len(t.pending[txid].ids)) : 0) + p.overflow + 1
+//@   ensures [unalloc] !has(t.allocs, p.id)
+//@   modifies mapof(t.pending), mapof(t.cache), mapof(t.allocs), all("txPending.ids"), all("txPending.alloctx"), all("txPending.lastReleaseBegin"), allelems("common.Pgid"), allelems("common.Txid")
+//@   loop 0 invariant [range] p.id <= id && id <= p.id + p.overflow + 1
+//@   loop 0 invariant [done] forall j common.Pgid :: p.id <= j && j < id ==> has(t.cache, j)
+//@   loop 0 invariant [kept] forall j common.Pgid :: old(has(t.cache, j)) ==> has(t.cache, j)
+//@   loop 0 invariant [only] forall j common.Pgid :: has(t.cache, j) ==> old(has(t.cache, j)) || (p.id <= j && j < id)
+//@   loop 0 invariant [txp] has(t.pending, txid) && t.pending[txid] == txp && wfTxp(txp)
+//@   loop 0 invariant [cnt] len(txp.ids) == (old(has(t.pending, txid)) ? old(len(t.pending[txid].ids)) : 0) + (id - p.id)
+//@   loop 0 invariant [alloc] !has(t.allocs, p.id)
+//@   loop 0 invariant [page] p.id == old(p.id) && p.overflow == old(p.overflow) && p.id >= 2
+
+// ---------------------------------------------------------------- interface contracts (used at call sites in package bbolt)
+// The ghost gfree[obj] is the abstract free set of a freelist object.
+//@ ghost var gfree mapto[int,set[common.Pgid]]
+
+//@ func Interface.Allocate
+//@   props C09
+//@   ensures result == 0 || result >= 2
+//@   ensures result != 0 ==> forall k int :: 0 <= k && k < numPages ==> old(gfree[ifaceref(self)][result + k]) && !gfree[ifaceref(self)][result + k]
+//@   modifies gfree, all("array.ids"), allelems("common.Pgid"), allmaps("common.Pgid", "common.Txid"), allmaps("common.Pgid", "struct{}"), all("hashMap.freePagesCount"), allmaps("uint64", "freelist.pidSet"), allmaps("common.Pgid", "uint64")
